@@ -66,6 +66,7 @@ int main(void) {
   cA.f2.f0 = 2; cA.f2.f1 = 2; cA.f2.f2 = (void*)ra2;
   Poly polyD = {0}; Poly* pd[1] = {&polyD}; double ptsD[6]; for (int i = 0; i < 3; i++) { ptsD[2 * i] = (double)x2[i]; ptsD[2 * i + 1] = (double)y2[i]; }
   polyD.f0 = TAG(layer2, dtype2); polyD.f1.f0 = 3; polyD.f1.f1 = 3; polyD.f1.f2 = (void*)ptsD; cD.f1.f0 = 1; cD.f1.f1 = 1; cD.f1.f2 = (void*)pd;
+  Label labD = {0}; uint8_t txtD[2] = {'w', 0}; Label* lD[1] = {&labD}; labD.f0 = TAG(layer, dtype2); labD.f1 = txtD; VXD(labD.f2) = (double)x2[1]; VYD(labD.f2) = (double)y2[1]; labD.f3 = 0; labD.f5 = 1.0; cD.f5.f0 = 1; cD.f5.f1 = 1; cD.f5.f2 = (void*)lD;      /* a label after the references of the cell before */
 #endif
   uint8_t fname[2] = {'f', 0}, gname[2] = {'g', 0};
   uint32_t werr = WRITE_GDS(&lib, fname, 0, &tmv);
@@ -125,7 +126,8 @@ int main(void) {
     CHECK(r->f0 == 0 && *(Cell**)&r->f1 == lib_cell(&out, 1) && lib_cell(&out, 1)->f0[0] == 'D', "target resolved");
     CHECK(VXD(r->f2) == VXD(ref.f2) && VYD(r->f2) == VYD(ref.f2) && r->f3 == 0.0 && r->f4 == ref.f4 && (r->f5 & 1) == refl && r->f6.f0 == 0, "placement"); }
 #elif ELEM == 3
-  { Cell* d = lib_cell(&out, 1); CHECK(d->f0[0] == 'D' && c->f1.f1 == 1 && c->f5.f1 == 2 && c->f2.f1 == 2 && d->f1.f1 == 1 && d->f5.f1 == 0 && d->f2.f1 == 0, "element counts per cell");
+  { Cell* d = lib_cell(&out, 1); CHECK(d->f0[0] == 'D' && c->f1.f1 == 1 && c->f5.f1 == 2 && c->f2.f1 == 2 && d->f1.f1 == 1 && d->f5.f1 == 1 && d->f2.f1 == 0, "element counts per cell");
+    { Label* ld = ((Label**)d->f5.f2)[0]; CHECK(ld->f0 == labD.f0 && ld->f1[0] == 'w' && VXD(ld->f2) == VXD(labD.f2) && VYD(ld->f2) == VYD(labD.f2) && ld->f5 == 1.0 && (ld->f6 & 1) == 0, "the label of D (it follows A's references in the file)"); }
     Poly* p = ((Poly**)c->f1.f2)[0]; double* q = (double*)p->f1.f2; CHECK(p->f0 == poly.f0 && p->f1.f1 == 3, "polygon of A"); for (int i = 0; i < 6; i++) CHECK(q[i] == pts[i], "vertices of A's polygon");
     Poly* p2 = ((Poly**)d->f1.f2)[0]; double* q2 = (double*)p2->f1.f2; CHECK(p2->f0 == polyD.f0 && p2->f1.f1 == 3, "polygon of D"); for (int i = 0; i < 6; i++) CHECK(q2[i] == ptsD[i], "vertices of D's polygon");
     Label* l0 = ((Label**)c->f5.f2)[0]; Label* l1 = ((Label**)c->f5.f2)[1];
